@@ -7,25 +7,34 @@ REFS = {"add", "addref", "addbufref", "addfile", "drain", "remove", "rmbuf", "ad
         "readln", "evwrite", "c15"}
 
 
+CORE3 = {"addref", "addbufref", "drain", "rmbuf", "addbuf", "pullup", "c15"}
+
+
 def run(tier, seed):
     q = tier == "quick"
     gen = [
-        # every 3-call history of the reference family
-        dict(name="C15_exh3", consts=ec.consts(REFS - {"prepend", "readln", "remove", "prependbuf"}, 3, wa=37, wb=331, data=("bLa",), nsel=(1, 9)),
-             stride=4 if q else 1),
+        # every 3-call history of the reference family (remove_buffer cuts, pullup copies, moves, buffer references)
+        dict(name="C15_exh3", consts=ec.consts(CORE3, 3, wa=37, wb=331, data=("bLa",), nsel=(1, 9)),
+             stride=3 if q else 1),
         # file segments at / across page boundaries: mmap (m=0) and read (m=1) materialisation, offsets 0, 4096, 4097 ...
-        dict(name="C15_exh_pages", consts=ec.consts({"addfile", "addref", "drain", "rmbuf", "pullup", "evwrite", "c15"}, 2, wa=4096, wb=4097,
-                                                   data=("a",), nsel=(1, 2, 9))),
-        dict(name="C15_warm", consts=ec.consts(REFS - {"readln", "remove"}, 5, wa=1021, wb=4099, data=("a", "bLa"), nsel=(1, 2, 9), warm=2),
-             stride=40 if q else 4),
+        dict(name="C15_exh_pages", consts=ec.consts({"addfile", "addref", "drain", "rmbuf", "pullup", "c15"}, 2, wa=4096, wb=4097,
+                                                   data=("a", "aa"), nsel=(1, 2, 9))),
+        # written to a socket: every script of evbuffer_write_atmost on reference / segment chains
+        dict(name="C15_exh_write", consts=ec.consts({"addfile", "addref", "evwrite", "c15"}, 2, wa=4095, wb=37, data=("aa",), nsel=(1, 9)),
+             stride=2 if q else 1),
+        # multi-chain start states, then every 2-call history
+        dict(name="C15_warm", consts=ec.consts(CORE3 | {"prependbuf", "prepend", "add"}, 4, wa=1021, wb=4099, data=("a", "bLa"), nsel=(1, 2, 9), warm=2)),
     ]
     for (wa, wb) in ([(37, 331), (4095, 4097)] if q else [(1, 1), (37, 331), (4095, 4097), (4096, 37), (1021, 4099)]):
         gen.append(dict(name="C15_rand_%d_%d" % (wa, wb),
                         consts=ec.consts(ec.C12_ACTS | {"evwrite", "c15"}, 18 if q else 30, wa=wa, wb=wb, data=("a", "b", "aCL", "bLa"),
                                          nsel=(0, 1, 2, 3, 9), sizes=(0, 2000), maxlen=8),
-                        simulate=15 if q else 120, depth=90))
+                        simulate=15 if q else 60, depth=90))
+    # open finding: its trigger is excluded above ("cyc" not in Acts) and its canonical history replayed here
+    gen.append(dict(name="C15_known_cyc", consts=ec.consts({"addref", "addbufref", "addbuf", "cyc", "c15"}, 3, data=("a", "bLa")),
+                    key_fn=lambda h, k, msg: "multicast-self-reference-cycle" if "teardown" in msg else None))
     plan = {
-        "mc": [("C15_mc", ec.consts(REFS, 3 if q else 4, wa=2, wb=3, data=("aCL",), nsel=(1, 2, 9), sizes=(0,)))],
+        "mc": [("C15_mc", ec.consts((REFS - {"evwrite"}) if q else REFS, 3, wa=2, wb=3, data=("aCL",), nsel=(1, 2, 9), sizes=(0,)))],
         "gen": gen, "check_end": True,
         "need_ops": ["addref", "addbufref", "addfile", "drain", "rmbuf", "pullup", "evwrite", "addbuf"],
         "rule": "The specification tags every symbol with the reference / file segment / multicast copy it lives in and predicts, "
